@@ -52,6 +52,7 @@ type vWorld struct {
 	planned       map[string]int      // node -> instances the deployment asked the resource manager for
 	allocSeq      int                 // allocations handed out so far
 	returned      map[string]bool     // allocations given back through RollbackAlloc
+	cancelCaller  func()              // the caller of the operation gives up (its context ends)
 	copies        map[string][]*vCopy // file copies the engine was asked for, per workload
 	copyBehaviour map[string]int
 	removalBegan  bool            // some workload's removal has released its usage (the removal phase has begun)
@@ -279,8 +280,11 @@ func (e *vEngine) VirtualizationRemove(_ context.Context, id string, _, _ bool) 
 
 // ---- store: workload records (with faults) ----
 
-func (s *vStore) GetWorkload(_ context.Context, id string) (*types.Workload, error) {
+func (s *vStore) GetWorkload(ctx context.Context, id string) (*types.Workload, error) {
 	defer vGuard()()
+	if err := ctx.Err(); err != nil {
+		return nil, err
+	}
 	if s.w != nil && s.w.fault("store.GetWorkload") {
 		return nil, vErrInjected
 	}
